@@ -181,7 +181,7 @@ fn fq2_case_strategy() -> BoxedStrategy<Fq2Case> {
     (fq2_strategy(), kind, fq2_strategy()).prop_map(|(a, kind, b)| Fq2Case { a, kind, b }).boxed()
 }
 
-fn check_fq2(c: &Fq2Case, info: &mut Info) -> Result<(), String> {
+pub fn check_fq2(c: &Fq2Case, info: &mut Info) -> Result<(), String> {
     let base = c.a.build();
     let am = match c.kind {
         Fq2Kind::Plain => base.clone(),
@@ -269,6 +269,7 @@ pub fn def() -> PropDef {
             Box::new(Sub { name: "fq", rule: "Fq sqrt / legendre / sgn0 / order / negate_if", quick: 12_000, thorough: 400_000, strategy: || boxed(prime_case_strategy(6)), check: check_fq_prime }),
             Box::new(Sub { name: "fr", rule: "Fr sqrt (Tonelli-Shanks) / legendre / order", quick: 12_000, thorough: 400_000, strategy: || boxed(prime_case_strategy(4)), check: check_fr_prime }),
             Box::new(Sub { name: "fq2", rule: "Fq2 sqrt / legendre (of the norm) / sgn0 / lexicographic order / negate_if", quick: 12_000, thorough: 400_000, strategy: || boxed(fq2_case_strategy()), check: check_fq2 }),
+            super::corpus_sub_field(),
         ],
         assumptions: COMMON_ASSUMPTIONS.to_vec(),
     }
